@@ -110,12 +110,16 @@ def s2(ck, an):
         if e.kind in "WMD":
             ck.check(e.attr == "last_update" and e.owner == "Exchange", "EFFECT", "S2.handler-writes", subj, e.loc,
                      "the handler itself writes only Exchange.last_update", f"handler writes {e.owner}.{e.attr}", construct=stmt_text(e.node))
-    lu = [s for s in assigns_to_attr(fa, "last_update")]
-    ck.check(len(lu) == 1 and not fa.syntactic_guards(lu[0]), "EFFECT", "S2.last-update-always", subj, fa.f.loc, "every quote processed advances Exchange.last_update", "Exchange.last_update is not set unconditionally by process_EventNBBO",
-             construct="self.last_update = event.time")
-    for s in lu:
-        v = fa.sym.canon(s.value) if isinstance(s, ast.Assign) else "?"
-        ck.check(v == f"{ev}.time", "ARGFLOW", "S2.last-update", subj, fa.loc(s), "last_update is the event's time", f"last_update = {v}", construct=stmt_text(s))
+    # every quote processed advances Exchange.last_update to the event's time, whether the book is alive or not: decision table over
+    # `book.is_alive` (the handler is evaluated abstractly under both; guard clauses / early returns / if-else are the same)
+    ALIVE = ("truthy", f"{_par(want_book)}.is_alive", True)
+
+    def last_update_at_end(fw_, events):
+        return sorted({(st_.slots.get("self.last_update").key() if st_.slots.get("self.last_update") is not None else "unset") for st_ in final_states(fw_)})
+    tab = decision_table(fa, [ALIVE], last_update_at_end)
+    for (alive,), got in tab.items():
+        ck.check(got == [f"{ev}.time"], "EFFECT", "S2.last-update-always", subj, fa.f.loc, "every quote processed advances Exchange.last_update to the event's time",
+                 f"book alive={alive}: when the handler finishes Exchange.last_update is {got}", construct="self.last_update = event.time")
     # _books ownership
     allowed = {"Exchange.__init__", "Exchange.__getitem__", "Exchange.__len__", "Exchange.__repr__"}
     for f in an.functions():
@@ -265,10 +269,11 @@ def s5(ck, an):
                  construct="return hash(self.symbol) == hash(other)")
     fg = an.fa("Exchange.__getitem__")
     keyp = fg.f.params[1]
-    # the value returned, as a value id over the parameter: the book filed under the key, a contract key being replaced by its static hash first
-    rv = ret_canons(fg)
-    want = specv(fg, f"self._books[{keyp}.static_hashing() if isinstance({keyp}, AbstractContract) else {keyp}]").key()
-    ck.check(len(rv) == 1 and rv[0] == want, "IDIOM", "S5.getitem-normalises-key", fg.f.short, fg.f.loc, "__getitem__ replaces a contract key by key.static_hashing() and returns self._books[key]",
-             f"__getitem__ returns {rv}; expected {want}", construct="key = key.static_hashing()")
-    ck.check(len(rv) == 1 and rv[0].startswith("self._books["), "IDIOM", "S5.getitem-returns-book", fg.f.short, fg.f.loc, "__getitem__ returns self._books[key]",
-             f"__getitem__ returns {rv}", construct="return self._books[key]")
+    # decision table over `isinstance(key, AbstractContract)`: a contract key addresses the book filed under its static hash, any other key the book filed under itself
+    ISC = ("truthy", f"isinstance({keyp}, AbstractContract)", True)
+    tabg = decision_table(fg, [ISC], lambda fw_, events: sorted({v.key() for r_, v, st_ in fw_.returns if v is not None}))
+    wantg = {(True,): [f"self._books[{keyp}.static_hashing()]"], (False,): [f"self._books[{keyp}]"]}
+    for bits, got in tabg.items():
+        ck.check(got == wantg[bits], "IDIOM", "S5.getitem-normalises-key" if bits[0] else "S5.getitem-returns-book", fg.f.short, fg.f.loc,
+                 "__getitem__ replaces a contract key by key.static_hashing() and returns self._books[key]" if bits[0] else "__getitem__ returns self._books[key] for a plain key",
+                 f"key is a contract={bits[0]}: __getitem__ returns {got}; expected {wantg[bits]}", construct="key = key.static_hashing()" if bits[0] else "return self._books[key]")
